@@ -256,9 +256,14 @@ impl Config {
                             s.push_str(&format!("<family>{f}</family>"));
                         }
                         for (a, r) in &t.filters {
-                            s.push_str(&format!(
-                                "<route-filter><address>{a}</address><choice-ident>prefix-length-range</choice-ident><choice-value>{r}</choice-value></route-filter>"
-                            ));
+                            if r.starts_with('/') {
+                                s.push_str(&format!(
+                                    "<route-filter><address>{a}</address><choice-ident>prefix-length-range</choice-ident><choice-value>{r}</choice-value></route-filter>"
+                                ));
+                            } else {
+                                // a match type the agent never writes (orlonger, exact, longer): somebody edited the policy by hand
+                                s.push_str(&format!("<route-filter><address>{a}</address><choice-ident>{r}</choice-ident><choice-value></choice-value></route-filter>"));
+                            }
                         }
                         s.push_str("</from>");
                     }
